@@ -187,7 +187,7 @@ impl Check for PairFeeLedger {
                         continue;
                     };
                     rec.class("swap_ok");
-                    let at = swap_attrs(&resp, &pw.pair).ok_or_else(|| Fail::new("swap response lacks attributes"))?;
+                    let at = swap_attrs(&resp, &pw.pair).ok_or_else(|| Fail::unobservable("the swap response carries no parsable return / spread / fee attributes"))?;
                     let after = pw.view().map_err(|e| Fail::new(format!("Pool query failed: {e}")))?;
                     let got = pw.w.bal(&pw.infos[ai], &recv) - rb;
                     ensure!(got == at.return_amount, "step {step}: receiver got {got}, swap reports return {}", at.return_amount);
@@ -428,7 +428,7 @@ impl Check for TrioFeeLedger {
                         continue;
                     };
                     rec.class("swap_ok");
-                    let at = swap_attrs(&resp, &tw.trio).ok_or_else(|| Fail::new("swap response lacks attributes"))?;
+                    let at = swap_attrs(&resp, &tw.trio).ok_or_else(|| Fail::unobservable("the swap response carries no parsable return / spread / fee attributes"))?;
                     let after = tw.view().map_err(|e| Fail::new(format!("Pool query failed: {e}")))?;
                     let got = tw.w.bal(&tw.infos[ai], &recv) - rb;
                     ensure!(got == at.return_amount, "step {step}: receiver got {got}, swap reports return {}", at.return_amount);
